@@ -458,8 +458,20 @@ struct DomExec {
       // ParseSchema
       JVal before = s.m;
       bool had_map = s.may_map || any_map(s.m);
+      bool armed = false;
+      if (op.fault == FT_STRBUF_FAIL && s.flavour != FL_POOL) { simmem::arm_fail(s.flavour == FL_SIM ? simmem::SIMALLOC : simmem::LIBC, simmem::FK_MALLOC, 0); armed = true; }
+      if (op.fault == FT_NODESTACK_FAIL) { simmem::arm_fail(simmem::LIBC, simmem::FK_REALLOC_NULL, 0); armed = true; }
       d.ParseSchema(tb.data, text.size());
+      bool fired = armed && simmem::disarm();
       tb.release();
+      if (fired) {   // handled allocation failure: kErrorNoMem and the existing document untouched
+        probe("alloc_fail_fired_in_parseschema");
+        if (d.GetParseError() != kErrorNoMem) violate("contract", site("nomem"), "allocation failure at a handled site of ParseSchema did not yield kErrorNoMem (got " + std::to_string((int)d.GetParseError()) + ")");
+        if (op.fault == FT_NODESTACK_FAIL) note_schema_buffer(s, text.size());
+        else if (s.flavour != FL_POOL && s.schema_live) { d5_expected.insert(s.schema_live); s.schema_live = 0; }   // D5: the pointer to the earlier buffer was overwritten (here with null)
+        ob = "SF";
+        return true;   // model unchanged; the walk after the op verifies it
+      }
       note_schema_buffer(s, text.size());
       ob = "S" + std::to_string((int)d.GetParseError());
       JVal actual = to_jval(root);
